@@ -96,6 +96,8 @@ func (i *IFunc) LLString() string {
 		fmt.Fprintf(buf, " %s", i.UnnamedAddr)
 	}
 	buf.WriteString(" ifunc")
+	// Note: the type is cached by the first invocation of Type.
+	i.Type()
 	fmt.Fprintf(buf, " %s, %s", i.Typ.ElemType, i.Resolver)
 	if len(i.Partition) > 0 {
 		fmt.Fprintf(buf, ", partition %s", quote(i.Partition))
